@@ -26,6 +26,9 @@ import (
 
 	"github.com/synnaxlabs/arc"
 	stlmath "github.com/synnaxlabs/arc/stl/math"
+	"github.com/synnaxlabs/arc/stl/series"
+	"github.com/synnaxlabs/arc/stl/stateful"
+	stlstrings "github.com/synnaxlabs/arc/stl/strings"
 	"github.com/synnaxlabs/arc/text"
 	"github.com/tetratelabs/wazero"
 )
@@ -169,7 +172,14 @@ func trapClass(err error) string {
 	return "other: " + s
 }
 
+// the real stateful host module (stl/stateful): one node key per case, cleared before each case
+var stHost *stateful.Host
+
 func runCase(ctx context.Context, rt wazero.Runtime, c tcase) (res result) {
+	if stHost != nil {
+		stHost.ClearNode("c19")
+		stHost.SetNodeKey("c19")
+	}
 	res.ID = c.ID
 	res.Imports = []string{}
 	res.Results = []callRes{}
@@ -298,6 +308,12 @@ func main() {
 		fmt.Fprintln(os.Stderr, "math host:", err)
 		os.Exit(2)
 	}
+	sh, err := stateful.NewHost(ctx, rt, series.NewProgramState(), stlstrings.NewProgramState())
+	if err != nil {
+		fmt.Fprintln(os.Stderr, "stateful host:", err)
+		os.Exit(2)
+	}
+	stHost = sh
 	in := bufio.NewReaderSize(os.Stdin, 1<<20)
 	out := bufio.NewWriter(os.Stdout)
 	defer out.Flush()
